@@ -9,7 +9,7 @@
 // Three stages; each is announced by {"e":"Begin","stage":..} first, so that a crash of the code
 // under test (signal, sanitizer abort, escaped exception, hang - reported by main.cpp as
 // {"e":"Crash"}) is attributed to the stage it happened in:
-//   open    rvutils::pbo::pbofile(path): good(), attributes(), files()
+//   open    rvutils::pbo::pbofile::open(path) (the reading entry point the runtime and the CLI use): good(), attributes(), files()
 //             -> {"e":"Open","good":b,"props":[[k,v]..],"entries":[{"name":..,"size":n}..]}
 //   direct  pbofile::read(name, reader) + reader::read for every expected name, the buffer sized by
 //           reader.descriptor().size exactly like impl_default::read_file / cli.cpp do
@@ -93,7 +93,8 @@ static void cmd_pbo(const J& c)
     // ---- stage 1: the reader itself
     begin("open");
     {
-        rvutils::pbo::pbofile pbo{ std::filesystem::path(path) };
+        rvutils::pbo::pbofile pbo;
+        pbo.open(std::filesystem::path(path));
         J o = ev("Open");
         o.set("good", pbo.good());
         J props = J::arr();
